@@ -10,7 +10,7 @@ import pipe
 
 ID = "C05"
 MODULE = "C05"
-IMPORTS = "Bytes RustInt Range CacheControl Cache CacheProofs Fixture CacheX CacheXProofs RustStd Vary VaryProofs VaryWire VaryWireProofs"
+IMPORTS = "Bytes RustInt Range CacheControl Cache CacheProofs Fixture CacheX CacheXProofs RustStd Vary VaryProofs VaryWire VaryWireProofs RuleSet CacheRulesProofs VaryRules VaryRulesProofs"
 PROFILES = ("dev",)
 
 RULE = ("histories through the real kvarn::handle_cache in process (component vary.run, harness/src/c05.rs on top of c00pipe.rs) and over one loopback "
@@ -18,7 +18,7 @@ RULE = ("histories through the real kvarn::handle_cache in process (component va
         "pages, each with a vary rule set of 0-3 rules (header name incl. mixed-case and non-token names and names equal to / pieces of / extensions "
         "of the fixed part of the vary header: accept, range, accept-encoding, encoding, ran, accept-enc, e, x-accept ..., transformation from the many-to-few menu "
         "{lower-case, first-byte class lo/hi/none, length mod 3, constant} implemented in Rust and in Gallina, default incl. defaults equal to a class), "
-        "registered under the exact path or under a pattern '<prefix>*' (longer pattern / exact path win), server cache preference Full or QueryMatters, "
+        "registered under the exact path or under a pattern '<prefix>*' (longer pattern / exact path win; family 'specificity': an exact rule next to the wildcards '<path>*' — one byte longer than the exact path —, '<path minus its last byte>*' — exactly as long —, a shorter prefix and '/*', every rule set varying on ANOTHER header, added in both orders and in random order; the page under two values of its own header that the transformation keeps apart, with the wildcards' headers absent and present), server cache preference Full or QueryMatters, "
         "bodies below and above the 50-byte floor of the compressor, with and without the default extensions (Prime uri_redirect in front); pages "
         "served through an INTERNAL ROUTE (a Prime extension of the harness answers the public path, after the redirect, with '/./...' [+ query]; two "
         "public paths share one internal page; the vary rules are registered on the internal path and the public path has a rule set of its own on other "
@@ -26,7 +26,7 @@ RULE = ("histories through the real kvarn::handle_cache in process (component va
         "the handler while the internal item is cleared (the item-creating arm of handle_vary_missing); served by a "
         "counting handler that echoes its own transformed tuple (and the query on QueryMatters pages), on 'picky' pages declaring no server caching "
         "for some tuples (those variants must be recomputed by every request and never appear in a dump); requests GET/HEAD/POST whose rule headers are "
-        "absent, present (same class / different class), empty, repeated with values of different classes, or not text (obs-text bytes), with "
+        "absent, present (same class / different class), empty or blanks only (family 'empty-values': absent / empty / blank / a value, in the arrival orders, under every transformation of the menu with a default that is not transformation('')), repeated with values of different classes, or not text (obs-text bytes), with "
         "accept-encoding, If-Modified-Since (start + 100 s = fresh for every entry, start - 100 s = for none; with a tuple that is stored -> 304, with one "
         "that is not -> computed), and on the wire Range (satisfiable, starting after the end, start > end, unparsable; together with a fresh "
         "If-Modified-Since: the 304 goes out as it is); page clears of the URL as requested and of its '.'/'/' form (clear_page also clears the default "
@@ -143,7 +143,14 @@ LEVEL_TEXT = ("Coq theorems, for all rule sets (any number of rules, names, tran
               "later requests happen after L, one cache key per URL); vector_refines_assoc_list + "
               "vary_cache_transparent connect the vector model to Model/CacheX.v (C03/C04's model of the merged code, all repairs on, now with its override "
               "URI instantiated by the real one instead of 'none') and C03's "
-              "transparency (without the premise that query-dependence is uniform per path). Tied to the repo by the differential run of the "
+              "transparency (without the premise that query-dependence is uniform per path). Which rules a page gets: vary_rules_of_most_specific (the rules_of "
+              "the model is instantiated with — rules_fix = RuleSet::get on the vector add_mut keeps — are, for every rule set and order of addition, "
+              "those of C14's independent most-specific resolver), vary_exact_rule_wins_c05 (an exact rule beats every covering wildcard, also '<path>*' "
+              "which is longer and '<path minus last byte>*' which is as long), vary_longest_pattern_wins_c05, vary_uncovered_path_has_no_rules, with "
+              "length_only_shadows_exact_refuted (ordered by text length alone, stable: /docs* and — added first — /doc* shadow /docs; its "
+              "accept-language variants share one key). Empty values: empty_value_is_transformed (a rule header present with an empty value gets "
+              "transformation(''), and selects another variant than the absent header whenever that differs from the default) with "
+              "empty_as_default_refuted (empty values skipped: one key for two answers). Tied to the repo by the differential run of the "
               "real kvarn::handle_cache and of kvarn::handle_connection (loopback) against the extracted models (incl. the order of the stored vector), "
               "the finite-map spec oracle and an independent Python reading of the property on the implementation's output. Not proved: the composition of "
               "honest_not_modified_sound with the one-second arithmetic of the freshness test (C04); streaming replies.")
@@ -165,10 +172,11 @@ OVERLAP_NAMES = [b"accept", b"range", b"accept-encoding", b"encoding", b"x-accep
 RANGE_VALUES = [b"bytes=0-1", b"bytes=1-3", b"bytes=0-", b"en", b"zz", b"", b"bytes=2-1000", b"BYTES=0-1"]     # never start > end
 DEFAULTS = [b"dflt", b"lo", b"hi", b"0", b"", b"en", b"k", b"none", b"zz"]
 VALUES = {
-    0: [b"en", b"EN", b"sv", b"Sv", b"de", b"fr", b"a", b"zz", b"", b"en-GB", b"b\tc", b"dflt"],
-    1: [b"apple", b"Mango", b"zebra", b"Nope", b"", b"m", b"n", b"9", b"hi", b"lo"],
-    2: [b"", b"a", b"ab", b"abc", b"abcd", b"abcde", b"zzzzzz"],
-    3: [b"x", b"y", b"", b"anything"],
+    # (values that are only blanks: present, not trimmed in process; the generators of wire histories leave them out)
+    0: [b"en", b"EN", b"sv", b"Sv", b"de", b"fr", b"a", b"zz", b"", b"en-GB", b"b\tc", b"dflt", b" "],
+    1: [b"apple", b"Mango", b"zebra", b"Nope", b"", b"m", b"n", b"9", b"hi", b"lo", b" "],
+    2: [b"", b"a", b"ab", b"abc", b"abcd", b"abcde", b"zzzzzz", b"  ", b"\t"],
+    3: [b"x", b"y", b"", b"anything", b" "],
 }
 NONTEXT = [b"\xe9t\xe9", b"en\xff", b"\x80", b"sv\xc3\xa5"]
 LONG = b"-" * 70          # a prefix that takes every body over the 50-byte floor of the compressor
@@ -455,6 +463,105 @@ def with_prime(rng):
         ops.insert(rng.randrange(len(ops)), pipe.clear_page(rng.choice([b"/dir/index.html", b"/p.html", b"/dir/"])))
     ops += dumps(pages)
     return mk(cfg, ops, "prime+patterns")
+
+
+# ---- family 'specificity' (seeded/C05-9): rule sets in which an exact-path rule stands next to wildcard rules covering the same page — "<path>*"
+# (one byte LONGER than the exact path), "<path minus its last byte>*" (exactly AS LONG: a tie when rules are ordered by length alone, decided by
+# the order of addition), shorter prefixes and "/*" — every rule set varying on ANOTHER header, added in both orders and in random order.
+# extensions::RuleSet::get must answer with the most specific rule: exact beats wildcard, the longer wildcard prefix beats the shorter.
+SPEC_BASES = [b"/docs", b"/lang", b"/api/v1", b"/d/page.html", b"/ab"]
+
+
+def specificity(rng, order_mode=None, wire_=False):
+    base = rng.choice(SPEC_BASES)
+    names = rng.sample([b"x-a", b"x-b", b"x-c", b"accept-language"], 4)
+    star, tie, short, root = base + b"*", base[:-1] + b"*", base[:2] + b"*", b"/*"
+    layout = rng.choice([[base, star], [base, tie], [base, star, tie], [base, star, tie, short], [base, tie, root], [star, tie], [base, star, root],
+                         [tie, short, root]])
+    layout = [p for k, p in enumerate(layout) if p not in layout[:k]]
+    rule_of = {}
+    for k, pat in enumerate(layout):
+        xf = rng.choice([0, 0, 1, 2])
+        rule_of[pat] = [(names[k], xf, rng.choice([b"dflt", b"sv", b"zz", b"k%d" % k]), names[k])] + (gen_rules(rng, 1, p_overlap=0.0) if rng.random() < 0.15 else [])
+        rule_of[pat] = [r for j, r in enumerate(rule_of[pat]) if j == 0 or (r[0].lower() not in [n.lower() for n in names] and r[3] is not None)]
+    order = list(layout)
+    order_mode = order_mode if order_mode is not None else rng.choice(["fwd", "rev", "shuffle"])
+    if order_mode == "rev":
+        order.reverse()
+    elif order_mode == "shuffle":
+        rng.shuffle(order)
+    # the page each pattern is the most specific rule of
+    own_page = {base: base, star: base + b"x", tie: base[:-1] + b"~q", short: base[:2] + b"~", root: b"/~other"}
+    pages = [Page(own_page[pat], rule_of[pat], rule_path=pat, prefix=b"S%d" % k) for k, pat in enumerate(order)]
+    if base not in layout:
+        # the page itself without an exact rule: the longest wildcard covering it
+        best = max([p for p in layout if base.startswith(p[:-1])], key=len)
+        pages.append(Page(base, rule_of[best], rule_path=None, prefix=b"SB"))
+    cfg = config(pages, report=WIRE_REPORT if wire_ else None)
+    every = [r for pat in layout for r in rule_of[pat]]
+    # directed: the exact page under two values of ITS OWN header that the transformation keeps apart (the wildcards' headers absent, then
+    # present), then the pages of the wildcards
+    focus = pages[-1] if base not in layout else [pg for pg in pages if pg.path == base][0]
+    (n0, xf0, d0, _) = focus.rules[0]
+    v1, v2 = rng.sample(VALUES[xf0], 2)
+    for _ in range(8):
+        if len({_xf(xf0, v1), _xf(xf0, v2), d0}) == 3:
+            break
+        v1, v2 = rng.sample(VALUES[xf0], 2)
+    others = [(r[3], rand_value(rng, r[1])) for r in every if r[3] != n0 and rng.random() < 0.5]
+    others = [(n, v) for (n, v) in others if _text(v)]
+    ops = [pipe.req(base, headers=[(n0, v1)]), pipe.req(base, headers=[(n0, v2)]), pipe.req(base), pipe.req(base, headers=[(n0, v1)] + others),
+           pipe.req(base, headers=[(n0, v2)] + others)]
+    pool = []
+    for pg in pages:
+        pool += request_set(rng, pg.path, every, rng.randrange(2, 5), methods=(b"GET", b"GET", b"GET", b"HEAD"), p_query=0.0, p_repeat=0.05)
+    for _ in range(rng.randrange(4, 12)):
+        r = rng.random()
+        if r < 0.05:
+            ops.append(pipe.clear_page(rng.choice([pg.path for pg in pages])))
+        elif r < 0.12:
+            ops.append(rng.choice(dumps(pages)))
+        else:
+            ops.append(rng.choice(pool))
+    if wire_:
+        # over the loopback connection: what SendKind::send wrote (the vary line of the most specific rule, the body of the own tuple)
+        wops = []
+        for o in ops:
+            if o[1][0][1] == 4:
+                continue
+            if o[1][0][1] != 0:
+                wops.append(o)
+                continue
+            hdrs = [(h[1][0][1], h[1][1][1]) for h in o[1][4][1]]
+            hdrs = [(n, v) for (n, v) in hdrs if v == v.strip(b" \t")]
+            hdrs = [(n, v) for k, (n, v) in enumerate(hdrs) if n not in [m for (m, _) in hdrs[:k]]]
+            wops.append(pipe.req(o[1][3][1], method=o[1][2][1], headers=hdrs))
+        return mk(cfg, wops, "specificity-wire", spec=False, comp="vary.wire")
+    ops += dumps(pages)
+    return mk(cfg, ops, "specificity-" + order_mode)
+
+
+def empty_values(rng):
+    """seeded/C03-11: a rule header that is absent (-> the rule's default), present with an EMPTY value (-> transformation("")) and present
+    with blanks only: three different requests whenever transformation("") is not the default; every arrival order"""
+    xf = rng.choice([0, 1, 2, 3])
+    d = rng.choice([b"dflt", b"sv", b"en", b"zz"])
+    rules = [(b"accept-language" if rng.random() < 0.5 else b"x-a", xf, d, None)]
+    rules = [(rules[0][0], xf, d, rules[0][0])] + (gen_rules(rng, 1, p_overlap=0.0) if rng.random() < 0.3 else [])
+    rules = [r for j, r in enumerate(rules) if j == 0 or (r[3] is not None and r[0].lower() != rules[0][0])]
+    pages = [Page(b"/v", rules, prefix=LONG if rng.random() < 0.2 else None)]
+    cfg = config(pages)
+    n = rules[0][0]
+    reqs = [pipe.req(b"/v"), pipe.req(b"/v", headers=[(n, b"")]), pipe.req(b"/v", headers=[(n, rng.choice([b" ", b"\t", b"  "]))]),
+            pipe.req(b"/v", method=rng.choice([b"GET", b"HEAD"]), headers=[(n, rng.choice([d, b"En", b"a"]))])]
+    cases = []
+    for perm in itertools.permutations(range(4)):
+        if rng.random() < 0.5:
+            continue
+        second = list(reqs)
+        rng.shuffle(second)
+        cases.append(mk(cfg, history_ops([reqs[i] for i in perm], second, pages), "empty-values"))
+    return cases
 
 
 def conditional(rng):
@@ -825,6 +932,10 @@ def generate(rng, tier):
             cases += ambiguous(rng)
         cases += [query_matters(rng) for _ in range(40)]
         cases += [with_prime(rng) for _ in range(40)]
+        cases += [specificity(rng, m) for m in ("fwd", "rev", "shuffle") for _ in range(12)]
+        cases += [specificity(rng, m, True) for m in ("fwd", "rev") for _ in range(4)]
+        for _ in range(4):
+            cases += empty_values(rng)
         cases += [conditional(rng) for _ in range(30)]
         cases += [wire(rng) for _ in range(60)]
         cases += [malformed(rng) for _ in range(4)]
@@ -848,6 +959,10 @@ def generate(rng, tier):
             cases += ambiguous(rng)
         cases += [query_matters(rng) for _ in range(1200)]
         cases += [with_prime(rng) for _ in range(1200)]
+        cases += [specificity(rng) for _ in range(1200)]
+        cases += [specificity(rng, None, True) for _ in range(200)]
+        for _ in range(60):
+            cases += empty_values(rng)
         cases += [conditional(rng) for _ in range(800)]
         cases += [wire(rng) for _ in range(1500)]
         cases += [malformed(rng) for _ in range(12)]
@@ -871,6 +986,10 @@ def directed(rng, mismatches):
     cases += [random_history(rng, 6, 30) for _ in range(500)]
     cases += [query_matters(rng) for _ in range(200)]
     cases += [with_prime(rng) for _ in range(150)]
+    cases += [specificity(rng) for _ in range(150)]
+    cases += [specificity(rng, None, True) for _ in range(30)]
+    for _ in range(10):
+        cases += empty_values(rng)
     cases += [conditional(rng) for _ in range(100)]
     cases += [wire(rng) for _ in range(200)]
     cases += [picky(rng) for _ in range(150)]
@@ -1367,4 +1486,6 @@ THEOREMS = [(n, _PINS[n]) for n in (
     "vary_cache_transparent", "wire_vary_advertised", "send_keeps_vary", "wire_not_modified_as_is",
     "not_modified_only_for_stored_variant", "not_modified_same_entry_sound", "entry_changes_are_dated",
     "honest_not_modified_sound", "served_copy_is_held", "wire_416_without_vary_v0_refuted",
-    "wire_416_internal_route_v0_refuted", "not_modified_only_for_stored_variant_v0_refuted", "stale_position_v0_refuted")]
+    "wire_416_internal_route_v0_refuted", "not_modified_only_for_stored_variant_v0_refuted", "stale_position_v0_refuted",
+    "vary_rules_of_most_specific", "vary_exact_rule_wins_c05", "vary_longest_pattern_wins_c05", "vary_uncovered_path_has_no_rules",
+    "length_only_shadows_exact_refuted", "empty_value_is_transformed", "empty_as_default_refuted")]
